@@ -299,6 +299,22 @@ def expectedAddrs (base : Nat) (buf : Option Nat) (rs : List ARange) (depth : Na
      (if r0.core = 0 then some ((base + r0.offset, span), (buf.getD 0, span)) else none))
   | _, _ => ([], [], none)
 
+/-! ### what one NPU stripe is handed -/
+
+/-- An NPU stripe that produces output channels `[c0, c1)` looks its ranges up by the key
+    `(core, c0)`.  For every active core the weight tensor must hold a range with that key, and the
+    tensor carrying the scales (`sr`; the same table unless the scales are stand-alone) a range with
+    that key holding one record per channel of `[c0, c1)` the core owns — so the stripe's channels are
+    covered exactly once by what the *emitted* operation addresses, whatever the scheduler decided
+    about slicing in between. -/
+def StripeCoverOk (ncores fullDepth : Nat) (wr sr : List ARange) (c0 c1 : Nat) : Prop :=
+  ∀ core ∈ List.range (min ncores fullDepth),
+    (∃ r ∈ wr, r.core = core ∧ r.depth = c0) ∧
+    (∃ r ∈ sr, r.core = core ∧ r.depth = c0 ∧ r.scaleBytes = 10 * (chanOf ncores core c0 (c1 - c0)).length)
+
+instance (ncores fullDepth : Nat) (wr sr : List ARange) (c0 c1 : Nat) :
+    Decidable (StripeCoverOk ncores fullDepth wr sr c0 c1) := by unfold StripeCoverOk; infer_instance
+
 /-! ### buffers the scheduler allocates for the slices -/
 
 /-- slice `i` (DMA size `sliceBytes[i]`) is copied into buffer `i mod n`; every buffer must hold every
